@@ -267,6 +267,117 @@ def _parse_lit(text):
         return None
 
 
+_EMPTY_INIT = ("set()", "[]", "list()", "frozenset()")
+
+
+def _split_atoms(t, positive):
+    """A test taken with the given polarity as a list of (atom AST, polarity): conjunctions taken true /
+    disjunctions taken false / negations are split; anything else is one atom."""
+    if isinstance(t, ast.UnaryOp) and isinstance(t.op, ast.Not):
+        return _split_atoms(t.operand, not positive)
+    if isinstance(t, ast.BoolOp) and ((isinstance(t.op, ast.And) and positive) or (isinstance(t.op, ast.Or) and not positive)):
+        out = []
+        for v in t.values:
+            out += _split_atoms(v, positive)
+        return out
+    return [(t, positive)]
+
+
+def _collection_spec(fa, expr, at, depth=4):
+    """What collection an expression builds, whatever its spelling: a comprehension / generator (possibly wrapped in
+    set() / list() / tuple() / frozenset()), a local assigned one, or a local initialised empty and filled by
+    `.add` / `.append` in ONE loop whose body only filters (`if c: continue` guards, nested ifs).  Returns a dict
+    {iter, iter_at, var, elt, atoms: [(test AST, polarity)], at} (the filter as atoms that must hold for an element
+    to be taken), or None."""
+    if depth <= 0 or expr is None:
+        return None
+    if isinstance(expr, ast.Call) and isinstance(expr.func, ast.Name) and expr.func.id in ("set", "list", "tuple", "frozenset") and len(expr.args) == 1 and not expr.keywords:
+        return _collection_spec(fa, expr.args[0], at, depth - 1)
+    if isinstance(expr, (ast.ListComp, ast.SetComp, ast.GeneratorExp)):
+        if len(expr.generators) != 1 or not isinstance(expr.generators[0].target, ast.Name):
+            return None
+        g = expr.generators[0]
+        atoms = []
+        for c in g.ifs:
+            atoms += _split_atoms(c, True)
+        return {"iter": g.iter, "iter_at": at, "var": g.target.id, "elt": expr.elt, "atoms": atoms, "at": at}
+    if isinstance(expr, ast.Name):
+        ds = fa.df.reaching(at, expr.id)
+        if len(ds) != 1 or ds[0].kind != "assign" or ds[0].value is None:
+            return None
+        d = ds[0]
+        if A.norm(d.value) not in _EMPTY_INIT:
+            return _collection_spec(fa, d.value, d.node, depth - 1)
+        name = expr.id
+        muts = [c for c in fa.calls() if isinstance(A.call_recv(c), ast.Name) and A.call_recv(c).id == name]
+        adds = [c for c in muts if A.call_attr(c) in ("add", "append") and len(c.args) == 1]
+        if len(adds) != 1 or len(muts) != 1:
+            return None
+        st = fa.stmt_of(adds[0])
+        if not isinstance(st, ast.Expr):
+            return None
+        atoms = []
+        cur = st
+        while True:
+            par = fa.pm.get(cur)
+            if isinstance(par, ast.If):
+                blk = par.body if cur in par.body else par.orelse
+                atoms = _split_atoms(par.test, cur in par.body) + atoms
+            elif isinstance(par, ast.For):
+                if cur not in par.body:
+                    return None
+                blk = par.body
+            else:
+                return None
+            # what precedes the statement in its block: only guards `if c: continue`
+            pre = []
+            for sib in A.sig_stmts(blk):
+                if sib is cur:
+                    break
+                if isinstance(sib, ast.If) and not A.sig_stmts(sib.orelse) and len(A.sig_stmts(sib.body)) == 1 and isinstance(A.sig_stmts(sib.body)[0], ast.Continue):
+                    pre += _split_atoms(sib.test, False)
+                else:
+                    return None
+            after = A.sig_stmts(blk)[A.sig_stmts(blk).index(cur) + 1:]
+            if any(not isinstance(x, ast.Continue) for x in after):
+                return None
+            atoms = pre + atoms
+            if isinstance(par, ast.For):
+                break
+            cur = par
+        loop = par
+        if loop.orelse or not isinstance(loop.target, ast.Name) or not fa.nodes(loop):
+            return None
+        if any(isinstance(x, (ast.Break, ast.Return)) for x in A.walk_local(loop)):
+            return None
+        ln = fa.nodes(loop)[0]
+        return {"iter": loop.iter, "iter_at": ln, "var": loop.target.id, "elt": adds[0].args[0], "atoms": atoms, "at": ln}
+    return None
+
+
+def _rename(node, old, new):
+    import copy
+    e = copy.deepcopy(node)
+    for n in ast.walk(e):
+        if isinstance(n, ast.Name) and n.id == old:
+            n.id = new
+    return e
+
+
+def _spec_literals(fa, spec):
+    """The filter of a collection spec as canonical literals (FA's spelling, the element variable called `_c0`,
+    operands of == as a sorted pair)."""
+    out = set()
+    for (t, pol) in spec["atoms"]:
+        (txt, p2) = fa._literal(_rename(t, spec["var"], "_c0"), spec["at"], pol)
+        e = _parse_lit(txt)
+        if isinstance(e, ast.Compare) and len(e.ops) == 1 and isinstance(e.ops[0], ast.Eq):
+            a_, b_ = sorted([A.norm(e.left), A.norm(e.comparators[0])])
+            txt = "%s == %s" % (a_, b_)
+        out.add((txt, p2))
+    return out
+
+
 def _reads_attr(fa, expr, attr, at=None):
     """Does the value of `expr` derive from `<something>.attr` / getattr(<something>, 'attr'[, default])?"""
     for n in _flow(fa, expr, at).values():
@@ -1660,7 +1771,10 @@ def check_dotted_names(ck, R):
     ck.ob(R, fa.key(None, "visit-Attribute"), oka, "attribute chains are recorded and their sub-expressions still visited" if oka else
           "attribute chains are no longer recorded (module.attr references are missed) or their sub-expressions are skipped", fa.where())
     if "visit_Attribute" in methods:
-        ev = [s for s in ast.walk(methods["visit_Attribute"]) if isinstance(s, ast.FunctionDef) and s is not methods["visit_Attribute"]]
+        # the chain evaluator: the method itself, the functions nested in it and the methods of the visitor it calls
+        va = methods["visit_Attribute"]
+        ev = [va] + [m_ for nm_, m_ in methods.items() if nm_ not in ("visit_Attribute", "visit_Name", "generic_visit", "__init__")
+                     and any(isinstance(c, ast.Call) and A.call_attr(c) == nm_ for c in ast.walk(va))]
         kinds = set()
         for e in ev:
             for i in ast.walk(e):
@@ -1670,63 +1784,121 @@ def check_dotted_names(ck, R):
         okk = {"ast.Attribute", "ast.Call", "ast.Name"} <= kinds
         ck.ob(R, fa.key(None, "chain-forms"), okk, "chains through attributes, calls and names are resolved" if okk else
               "the chain evaluator no longer handles %s" % sorted({"ast.Attribute", "ast.Call", "ast.Name"} - kinds), fa.where())
-    # roles: RES = the extracted name set (receiver of the difference_update calls), LOCALS = the set
-    # filled from the code object, TOREM = the other set subtracted
-    du0 = [c for c in fa.calls("difference_update") if isinstance(A.call_recv(c), ast.Name) and len(c.args) == 1 and isinstance(c.args[0], ast.Name)]
+    # roles: RES = the extracted name set (what is returned / cached and reduced in place).  Every reduction of RES
+    # is classified by WHAT IS SUBTRACTED: (L) the locals = a set whose elements come from exactly co_varnames and
+    # co_cellvars of fn.__code__ (set()+update, set(a) | set(b), union, {*a, *b} alike), or (C) the chains rooted
+    # at locals = the elements of RES itself whose first component is a member of such a set (comprehension or
+    # filtering loop alike).  Anything else narrows the name set.
+    WANT = {"fn.__code__.co_varnames", "fn.__code__.co_cellvars"}
+    du0 = [c for c in fa.calls("difference_update") if isinstance(A.call_recv(c), ast.Name) and len(c.args) == 1]
     RES = A.call_recv(du0[0]).id if du0 else "result"
-    argn = [c.args[0].id for c in du0 if A.call_recv(c).id == RES]
-    LOCALS = next((a for a in argn if any(A.norm(A.call_recv(c)) == a for c in fa.calls("update"))), "local_vars")
-    TOREM = next((a for a in argn if a != LOCALS), "to_remove")
-    ups = [c for c in fa.calls("update") if A.norm(A.call_recv(c)) == LOCALS]
+
+    def local_sources(e, at, depth=6):
+        """where the elements of a set-valued expression come from (attribute chains)"""
+        if depth <= 0 or e is None:
+            return {"<?>"}
+        if isinstance(e, ast.Call) and isinstance(e.func, ast.Name) and e.func.id in ("set", "frozenset", "list", "tuple"):
+            if not e.args:
+                return set()
+            return local_sources(e.args[0], at, depth - 1) if len(e.args) == 1 else {"<?>"}
+        if isinstance(e, ast.BinOp) and isinstance(e.op, ast.BitOr):
+            return local_sources(e.left, at, depth - 1) | local_sources(e.right, at, depth - 1)
+        if isinstance(e, ast.Call) and A.call_attr(e) == "union" and A.call_recv(e) is not None:
+            out = local_sources(A.call_recv(e), at, depth - 1)
+            for a in e.args:
+                out |= local_sources(a, at, depth - 1)
+            return out
+        if isinstance(e, (ast.Set, ast.List, ast.Tuple)):
+            out = set()
+            for x in e.elts:
+                out |= local_sources(x.value, at, depth - 1) if isinstance(x, ast.Starred) else {"<element %s>" % A.norm(x)}
+            return out
+        if isinstance(e, ast.Name) and fa.df.is_local(e.id) and e.id not in fa.fi.params:
+            ds = fa.df.reaching(at, e.id)
+            if ds and all(d.kind == "assign" and d.value is not None and not isinstance(d.value, (ast.Attribute, ast.Name)) for d in ds):
+                out = set()
+                for d in ds:
+                    out |= local_sources(d.value, d.node, depth - 1)
+                for c in fa.calls():
+                    if isinstance(A.call_recv(c), ast.Name) and A.call_recv(c).id == e.id and fa.nodes(c):
+                        if A.call_attr(c) == "update":
+                            for a in c.args:
+                                out |= local_sources(a, fa.nodes(c)[0], depth - 1)
+                        elif A.call_attr(c) in ("add", "discard", "remove", "difference_update", "intersection_update", "clear", "pop", "symmetric_difference_update"):
+                            out.add("<%s>" % A.norm(c))
+                return out
+        ch = fa.df.chains(e, at)
+        return set(ch) if ch else {"<not a plain attribute of fn.__code__>: " + A.norm(e)}
+
+    def first_component_of(e, var):
+        return A.norm(e) in ("%s[0:%s.find('.')]" % (var, var), "%s[:%s.find('.')]" % (var, var), "%s.split('.')[0]" % var,
+                             "%s.split('.', 1)[0]" % var, "%s.partition('.')[0]" % var)
+
+    def chains_rooted_at_locals(arg, at):
+        """is `arg` {x for x in RES if ['.' in x and] <first component of x> in <the locals>}?"""
+        spec = _collection_spec(fa, arg, at)
+        if spec is None or not isinstance(spec["iter"], ast.Name) or spec["iter"].id != RES or A.norm(spec["elt"]) != spec["var"]:
+            return False
+        member = 0
+        for (t, pol) in spec["atoms"]:
+            if isinstance(t, ast.Compare) and len(t.ops) == 1 and isinstance(t.ops[0], (ast.In, ast.NotIn)):
+                pol_in = pol if isinstance(t.ops[0], ast.In) else not pol
+                if pol_in and A.norm(t.left) in ("'.'", '"."') and A.norm(t.comparators[0]) == spec["var"]:
+                    continue
+                if pol_in and first_component_of(t.left, spec["var"]) and local_sources(t.comparators[0], spec["at"]) in [WANT] + subtracted_sets:
+                    member += 1
+                    continue
+            return False
+        return member >= 1
+
+    reductions = []  # (statement, subtracted expression or None)
+    for st in fa.stmts():
+        if not fa.nodes(st):
+            continue
+        if isinstance(st, ast.Assign) and any(isinstance(t, ast.Name) and t.id == RES for t in st.targets):
+            if not (isinstance(st.value, ast.Attribute) and st.value.attr == "references" and isinstance(st.value.value, ast.Name)
+                    and fa.xnorm(st.value.value, fa.nodes(st)[0]).endswith("()")):
+                if isinstance(st.value, ast.BinOp) and isinstance(st.value.op, ast.Sub) and A.norm(st.value.left) == RES:
+                    reductions.append((st, st.value.right))
+                else:
+                    reductions.append((st, None))
+        if isinstance(st, ast.AugAssign) and isinstance(st.target, ast.Name) and st.target.id == RES:
+            reductions.append((st, st.value if isinstance(st.op, ast.Sub) else None))
+        if isinstance(st, ast.Expr) and isinstance(st.value, ast.Call) and A.norm(A.call_recv(st.value)) == RES \
+                and A.call_attr(st.value) in ("difference_update", "intersection_update", "discard", "remove", "clear", "pop", "symmetric_difference_update"):
+            reductions.append((st, st.value.args[0] if A.call_attr(st.value) == "difference_update" and len(st.value.args) == 1 else None))
+    klass = {}
     srcs = set()
-    for c in ups:
-        if c.args:
-            ch = None
-            for i in fa.nodes(c):
-                ch = fa.df.chains(c.args[0], i)
-            srcs |= ch if ch else {"<not a plain attribute of fn.__code__>: " + A.norm(c.args[0])}
-    okl = srcs == {"fn.__code__.co_varnames", "fn.__code__.co_cellvars"}
+    # the sets subtracted as a whole (what the function treats as its locals, judged separately below)
+    subtracted_sets = [local_sources(arg, fa.nodes(st)[0]) for (st, arg) in reductions if arg is not None and _collection_spec(fa, arg, fa.nodes(st)[0]) is None]
+    for (st, arg) in reductions:
+        at_ = fa.nodes(st)[0]
+        spec_ = _collection_spec(fa, arg, at_) if arg is not None else None
+        if arg is None:
+            klass[id(st)] = "other"
+        elif chains_rooted_at_locals(arg, at_):
+            klass[id(st)] = "chains"
+        elif spec_ is not None:
+            # some selection of RES's own elements is removed, but not by first-component membership
+            klass[id(st)] = "chains?" if isinstance(spec_["iter"], ast.Name) and spec_["iter"].id == RES and A.norm(spec_["elt"]) == spec_["var"] else "other"
+        else:
+            s_ = local_sources(arg, at_)
+            klass[id(st)] = "locals" if s_ == WANT else "locals?"
+            srcs |= s_
+    okl = "locals" in klass.values() and "locals?" not in klass.values()
     ck.ob(R, fa.key(None, "locals-removed"), okl, "exactly co_varnames and co_cellvars are treated as local" if okl else
           "the set of names treated as local is %s (expected co_varnames and co_cellvars): globals are dropped or locals kept" % sorted(srcs), fa.where())
-    du = [c for c in fa.calls("difference_update") if A.norm(A.call_recv(c)) == RES]
-    okd = len(du) == 2
+    okd = bool({"locals", "locals?"} & set(klass.values())) and bool({"chains", "chains?"} & set(klass.values()))
     ck.ob(R, fa.key(None, "difference"), okd, "locals and chains rooted at locals are subtracted" if okd else
           "list_dotted_names no longer subtracts both locals and local-rooted chains", fa.where())
     # chains are removed only when their FIRST COMPONENT is a local (membership of the part before
     # the first '.', not a string-prefix test)
-    tr = [s for s in fa.stmts(ast.Assign) if any(isinstance(t, ast.Name) and t.id == TOREM for t in s.targets)]
-    okc = False
-    if len(tr) == 1 and isinstance(tr[0].value, (ast.SetComp, ast.ListComp, ast.GeneratorExp)):
-        comp = tr[0].value
-        var = A.norm(comp.generators[0].target)
-        conds = []
-        for c in comp.generators[0].ifs:
-            conds += A.conj_atoms(c)
-        for c in conds:
-            if isinstance(c, ast.Compare) and len(c.ops) == 1 and isinstance(c.ops[0], ast.In) and A.norm(c.comparators[0]) == LOCALS:
-                left = A.norm(c.left)
-                if left in ("%s[0:%s.find('.')]" % (var, var), "%s[:%s.find('.')]" % (var, var), "%s.split('.')[0]" % var,
-                            "%s.split('.', 1)[0]" % var, "%s.partition('.')[0]" % var):
-                    okc = True
-        if any(isinstance(n, ast.Call) and A.call_attr(n) == "startswith" for n in ast.walk(comp)):
-            okc = False
-        okc = okc and A.norm(comp.generators[0].iter) == RES
+    okc = "chains" in klass.values() and "chains?" not in klass.values()
     ck.ob(R, fa.key(None, "local-rooted-chains"), okc, "a dotted name is dropped only when its first component is a local" if okc else
           "dotted names are not filtered by membership of their first component in the locals (e.g. a string-prefix test): "
           "`steps.base` is dropped when a parameter is called `step`, and the dependency disappears from the closure", fa.where())
     # nothing else narrows the name set between extraction and return
-    narrow = []
-    for st in fa.stmts():
-        if isinstance(st, ast.Assign) and any(isinstance(t, ast.Name) and t.id == RES for t in st.targets):
-            if not (isinstance(st.value, ast.Attribute) and st.value.attr == "references" and isinstance(st.value.value, ast.Name)
-                    and fa.xnorm(st.value.value, fa.nodes(st)[0]).endswith("()")):
-                narrow.append(st)
-        if isinstance(st, ast.AugAssign) and isinstance(st.target, ast.Name) and st.target.id == RES:
-            narrow.append(st)
-        if isinstance(st, ast.Expr) and isinstance(st.value, ast.Call) and A.norm(A.call_recv(st.value)) == RES \
-                and A.call_attr(st.value) in ("difference_update", "intersection_update", "discard", "remove", "clear", "pop", "symmetric_difference_update"):
-            if not (A.call_attr(st.value) == "difference_update" and [A.norm(a) for a in st.value.args] in ([LOCALS], [TOREM])):
-                narrow.append(st)
+    narrow = [st for (st, arg) in reductions if klass[id(st)] == "other"]
     ck.ob(R, fa.key(None, "no-further-narrowing"), not narrow, "the extracted names are only reduced by the locals" if not narrow else
           "the extracted name set is narrowed further (`%s`): names the function really refers to (e.g. only inside a nested lambda or generator) "
           "are dropped, and edits to them never change the version" % A.short(narrow[0], 70), fa.where(narrow[0] if narrow else None))
@@ -1756,13 +1928,13 @@ def check_graph_derivation(ck, R):
                "direct = those marked first_level; first_level means 'reached directly from the root'", 4)
     t = FA(ck, "dependency_graph.DependencyGraph.transitive_memento_fn_dependencies")
     r = t.one(t.returns(), "return")
-    gens = [n for n in ast.walk(r.value) if isinstance(n, (ast.GeneratorExp, ast.SetComp, ast.ListComp))]
-    ok = len(gens) == 1
+    # decided on WHAT COLLECTION is returned (comprehension, set(generator) or a set filled by a filtering loop alike)
+    spec = _collection_spec(t, r.value, t.nodes(r)[0]) if r.value is not None and t.nodes(r) else None
+    ok = spec is not None
     if ok:
-        ga = A.alpha(gens[0])
-        ok = A.norm(ga.generators[0].iter) == "self._all_rules" and A.norm(ga.elt) == "_c0.memento_fn"
-        cond = " and ".join(A.norm(c) for c in ga.generators[0].ifs)
-        ok = ok and "hasattr(_c0, 'memento_fn')" in cond and "_c0.memento_fn != self.memento_fn" in cond and "first_level" not in cond and cond.count(" and ") == 1
+        lits = _spec_literals(t, spec)
+        ok = t.xnorm(spec["iter"], spec["iter_at"]) == "self._all_rules" and A.norm(_rename(spec["elt"], spec["var"], "_c0")) == "_c0.memento_fn" \
+            and lits == {("hasattr(_c0, 'memento_fn')", True), ("_c0.memento_fn == self.memento_fn", False)}
     ck.ob(R, t.key(None), ok, "transitive = every rule with a function, except self" if ok else
           "transitive_memento_fn_dependencies is not {rule.memento_fn for all rules with a function, minus self}", t.where())
     d = FA(ck, "dependency_graph.DependencyGraph.direct_memento_fn_dependencies")
